@@ -124,7 +124,7 @@ def exec_mix(case):
 def twin_cases(draw):
     c = sampler_cfg(draw)
     c.update({"common": draw(st.integers(0, 2**31 - 1)), "a": draw(st.integers(0, 2**31 - 1)), "b": draw(st.integers(0, 2**31 - 1)),
-              "t_div": draw(st.integers(0, 9)), "op": draw(st.sampled_from(["sample", "sample", "run", "posterior"])),
+              "t_div": draw(st.integers(0, 9)), "op": draw(st.sampled_from(["sample", "sample", "run", "posterior", "run_save"])),
               "rs": draw(st.one_of(st.none(), st.integers(0, 10**6)))})
     return c
 
@@ -150,10 +150,17 @@ def exec_twin(case):
                 T = s.state.get_history_length()
                 new = [np.asarray(s.state.get_history("u", index=i)) for i in range(case["t_div"], T)]
                 betas = [float(b) for b in s.state.get_history("beta")][case["t_div"]:]
-            elif case["op"] == "run":
+            elif case["op"] in ("run", "run_save"):
                 pre = None
                 np.random.seed(sd)
-                lib_call(s.run, n_total=72, progress=False, what="Sampler.run")
+                if case["op"] == "run_save":  # writing checkpoints on the way must not touch the stream either
+                    from vlib.runs import scratch_dir
+
+                    with scratch_dir() as od:
+                        object.__setattr__(s._core.config, "output_dir", __import__("pathlib").Path(od))
+                        lib_call(s.run, n_total=72, progress=False, save_every=1 + case["t_div"] % 3, what="Sampler.run(save_every=...)")
+                else:
+                    lib_call(s.run, n_total=72, progress=False, what="Sampler.run")
                 new = [np.asarray(s.state.get_history("u", flat=True))]
                 betas = [1.0]
             else:
